@@ -24,6 +24,7 @@
  */
 #include <stdio.h>
 #include <stdlib.h>
+#include <math.h>
 #include <stddef.h>
 #include <string.h>
 #include "particle.h"
@@ -34,6 +35,11 @@
 
 
 int reb_particle_diff(struct reb_particle p1, struct reb_particle p2){
+    if (isnan(p1.y) && isnan(p2.y)){
+        // Both particles are flagged for removal (see reb_simulation_remove_particle). NaN != NaN, but this is the same state.
+        p1.y = 0.;
+        p2.y = 0.;
+    }
     int differ = 0;
     differ = differ || (p1.x != p2.x);
     differ = differ || (p1.y != p2.y);
